@@ -56,3 +56,17 @@ Theorem glm_fit_start_is_consistent :
   Cons n X (firstn p w) (repeat (if fi then last w 0 else 0) n) Xw.
 Proof. exact glm_start_consistent. Qed.
 Print Assumptions glm_fit_start_is_consistent.
+
+(* GroupBCD: the regenerated block epoch keeps the model fit consistent, Xw = X w + c, for any prox, gradient accessor,
+   Lipschitz vector and working set (the group structure lists distinct non-negative features) -- so warm starts and
+   path steps hand a consistent pair to the next solve *)
+Require Import SK.Gen.KernBCD SK.Lemmas.BcdCons.
+Theorem bcd_epoch_keeps_model_fit_consistent : forall (prox_1group : list R -> R -> Z -> res (list R))
+    (gg : list (list R) -> list R -> list R -> list R -> Z -> res (list R)) (n : nat) (X : list (list R)) (c : list R),
+  wf_X n X -> forall (y lip : list R) (grp_ptr grp_indices : list Z),
+  NoDup grp_indices -> Forall (fun j => (0 <= j)%Z) grp_indices ->
+  forall ws w Xw w' Xw', length w = length X -> Cons n X w c Xw ->
+  @_bcd_epoch R _ grp_ptr grp_indices gg prox_1group X y w Xw lip ws = Ok (w', Xw') ->
+  Cons n X w' c Xw' /\ length w' = length w.
+Proof. exact bcd_epoch_preserves_cons. Qed.
+Print Assumptions bcd_epoch_keeps_model_fit_consistent.
